@@ -14,13 +14,13 @@ def sem_choice(n):
 
 
 def first_match(n):
-    """extra postcondition of the parse path (C17): variant k  <=>  alternatives 0..k-1 fail and k matches."""
+    """node_ok of a choice (C17): the variant built is k  <=>  alternatives 0..k-1 fail and k matches."""
     arms = []
     for k in range(n):
-        conds = ['T%d::sem(input.ctx(), input.off(), old(stack)@.cur) is None' % j for j in range(k)]
-        conds.append('T%d::sem(input.ctx(), input.off(), old(stack)@.cur) is Some' % k)
-        arms.append('                Choice%d::_%d(_) => %s,' % (n, k, ' && '.join(conds)))
-    return ('        ensures r is Some ==> match (r->0).1 {\n' + '\n'.join(arms) + '\n            },')
+        conds = ['T%d::sem(c, pos, st) is None' % j for j in range(k)]
+        conds.append('T%d::sem(c, pos, st) is Some' % k)
+        arms.append('Choice%d::_%d(_) => %s' % (n, k, ' && '.join(conds)))
+    return 'match n { ' + ', '.join(arms) + ' }'
 
 
 def build(U, arities=range(2, 13)):
@@ -36,9 +36,7 @@ def build(U, arities=range(2, 13)):
         U.emit(en, under_contract=False)
         tl = ', '.join('T%d' % k for k in range(n))
         im = U.impl('expanded', "TypedNode<'i, R> for Choice%d<%s>" % (n, tl)).drop_attrs()
-        im.prepend_in_block("    open spec fn sem(c: Ctx<'i>, pos: nat, st: Seq<Span<'i>>) -> Res<'i> { sem_choice%d::<R, %s>(c, pos, st) }" % (n, tl))
-        im.ret('r', fname='try_parse_partial_with')
-        im.contract(first_match(n), fname='try_parse_partial_with')
+        im.prepend_in_block(P.semdef("sem_choice%d::<R, %s>(c, pos, st)" % (n, tl), first_match(n)))
         for k in range(n):
             im.closure(k + 1, params=P.STACK_PARAM, contract=P.cl_parse('T%d' % k), fname='try_parse_partial_with')
             im.closure(k + 1, params=P.STACK_PARAM, contract=P.cl_check('T%d' % k), fname='try_check_partial_with')
